@@ -12,10 +12,10 @@ ASSUME = ["decides the platform-independent code path as compiled for Linux x86-
 
 
 def run(tier, seed):
-    r, obs = _hist.run_hist("C17", tier, seed, "c17", 24000, 16 * 24000, RULE, ASSUME)
+    r, obs = _hist.run_hist("C17", tier, seed, "c17", 24000, 16 * 60000, RULE, ASSUME)
     r.observe("flush_events_seen", obs.get("flush_events_seen", 0))
     r.void_if_unobserved(obs.get("flush_checked_bytes", 0) > 0, "flush monitor observed no changed bytes at all")
-    return r.finish({"scenario": "hist", "mon": "c17", "n": 24000 if tier == "quick" else 16 * 24000, "batch": 1})
+    return r.finish({"scenario": "hist", "mon": "c17", "n": 24000 if tier == "quick" else 16 * 60000, "batch": 1})
 
 
 def replay(path):
